@@ -309,6 +309,37 @@ def sec_coords(rec, qm=None, patches=None):
                           timeout_ms=60000, twin=False)
 
 
+def replay_representations(cex):
+    """installed library: several molecules built from quaternions / rotation vectors / Euler angles give the same rows back, molecule by molecule"""
+    from acryo import Molecules
+    from scipy.spatial.transform import Rotation
+
+    rng = np.random.default_rng(5)
+    n = 4
+    pos = rng.normal(size=(n, 3))
+    bad = {}
+    rot = Rotation.random(n, random_state=3)
+    q = rot.as_quat()
+    got = Molecules.from_quat(pos, q).quaternion()
+    if got.shape != q.shape or not np.allclose(np.abs(np.sum(got * q, axis=1)), 1, atol=1e-9):
+        bad["quaternion"] = True
+    rv = rot.as_rotvec()
+    m = Molecules.from_rotvec(pos, rv)
+    if not np.allclose(Rotation.from_rotvec(m.rotvec()[:, ::-1] if False else m.rotvec()).magnitude(), rot.magnitude(), atol=1e-9):
+        bad["rotvec-magnitude"] = True
+    for seq in ("ZXZ", "zyx", "XYZ", "yxz"):
+        for deg in (False, True):
+            ang = rng.uniform(0.2, 1.2, size=(n, 3)) * (180 / np.pi if deg else 1.0)
+            m = Molecules.from_euler(pos, ang, seq=seq, degrees=deg)
+            back = np.asarray(m.euler_angle(seq, degrees=deg))
+            if back.shape != ang.shape or not np.allclose(back, ang, atol=1e-6):
+                bad[f"euler[{seq},degrees={deg}]"] = {"given": ang[:2].round(4).tolist(), "read_back": back[:2].round(4).tolist() if back.ndim == 2 else repr(back.shape)}
+            sub = np.asarray(m.subset([1, 2]).euler_angle(seq, degrees=deg))
+            if sub.shape != (2, 3) or not np.allclose(sub, back[1:3], atol=1e-9):
+                bad[f"euler-subset[{seq},degrees={deg}]"] = True
+    return len(bad) > 0, {"problems": bad}
+
+
 def sec_representations(rec, patches=None):
     """from_quat / from_rotvec / from_matrix / from_euler and reading the same representation back"""
     L = _load(patches)
@@ -321,31 +352,35 @@ def sec_representations(rec, patches=None):
     q, hq = _qsym("q")
     p = [real(f"p{a}") for a in range(3)]
     ang = [real(f"a{k}") for k in range(3)]
+    bng = [real(f"b{k}") for k in range(3)]
+    q2, hq2 = _qsym("qq")
 
     def run():
-        m1 = MC.Molecules.from_quat(to_symarray([p]), to_symarray([q]))
+        m1 = MC.Molecules.from_quat(to_symarray([p, p]), to_symarray([q, q2]))
         m2 = MC.Molecules.from_matrix(to_symarray([p]), rotation.SymRotation([q]).as_matrix())
         outs = {}
         for seq in ("ZXZ", "zyx", "XYZ", "yxz"):
             for deg in (False, True):
                 for order in ("xyz", "zyx"):
-                    m = MC.Molecules.from_euler(to_symarray([p]), to_symarray([ang]), seq=seq, degrees=deg, order=order)
+                    m = MC.Molecules.from_euler(to_symarray([p, p]), to_symarray([ang, bng]), seq=seq, degrees=deg, order=order)
                     if order == "xyz":
                         outs[(seq, deg, order)] = m.euler_angle(seq, degrees=deg)
                     else:
                         outs[(seq, deg, order)] = m.rotator.as_euler(seq, degrees=deg)
         return m1, m2, outs
 
-    for pth in explore(run, assumptions=[hq]):
+    for pth in explore(run, assumptions=[hq, hq2]):
         if not pth.ok:
-            rec.fact("representations/runs", False, key="C11/representations/raises", detail={"exc": repr(pth.exc)[:300]})
+            rec.fact("representations/runs", False, key="C11/representations/raises", detail={"exc": repr(pth.exc)[:300]}, reproduced=replay_representations({})[0])
             continue
         m1, m2, outs = pth.result
-        rec.fact("representations/from_quat->quaternion()", all(z3.eq(zr(m1.quaternion()[0, k]), q[k].e) for k in range(4)), key="C11/representations/quat", detail={})
+        okq = m1.quaternion().shape == (2, 4) and all(z3.eq(zr(m1.quaternion()[r, k]), (q, q2)[r][k].e) for r in range(2) for k in range(4))
+        rec.fact("representations/from_quat->quaternion() (2 molecules, row by row)", bool(okq), key="C11/representations/quat", detail={}, reproduced=True if okq else replay_representations({})[0])
         rec.query("representations/from_matrix->matrix()", [hq, pth.condition()], _mat_eq(m2.matrix()[0], _mat(q)), key="C11/representations/matrix", nonlinear=True)
         for key, got in outs.items():
-            ok = got.shape == (1, 3) and all(z3.eq(zr(got[0, k]), ang[k].e) for k in range(3))
-            rec.fact(f"representations/from_euler{key}->same-angles", bool(ok), key="C11/representations/euler-round-trip", detail={"got": repr(got)[:100]})
+            ok = got.shape == (2, 3) and all(z3.eq(zr(got[r, k]), (ang, bng)[r][k].e) for r in range(2) for k in range(3))
+            rec.fact(f"representations/from_euler{key}->same-angles (2 molecules, row by row)", bool(ok), key="C11/representations/euler-round-trip", detail={"got": repr(got)[:160]},
+                     reproduced=True if ok else replay_representations({})[0])
     # translate_euler is an involution that maps a zyx-sequence to the scipy xyz-sequence
     bad = []
     for seq in ["".join(s) for s in itertools.product("xyz", repeat=3)] + ["".join(s) for s in itertools.product("XYZ", repeat=3)]:
@@ -697,7 +732,17 @@ def run(tier, procs=None, only=None):
 
 
 def replay(data):
-    ok, detail = replay_algebra(data.get("cex") or {})
+    key = data.get("key", "")
+    fn = replay_algebra
+    if "representations" in key:
+        fn = replay_representations
+    elif "euler-rotate" in key:
+        fn = replay_euler_rotate
+    elif "alias" in key:
+        fn = replay_alias
+    elif "axes" in key or "align-rotator" in key:
+        fn = replay_axes
+    ok, detail = fn(data.get("cex") or {})
     print("replay:", detail)
     print("REPRODUCED" if ok else "not reproduced")
     return 1 if ok else 0
